@@ -94,6 +94,18 @@ func EntityType(entity any) string {
 	return reflect.TypeOf(entity).String()
 }
 
+// entityTypeOf returns the entity type name for the type parameter T. For pointer
+// types it asks a non-nil zero value, so that a value-receiver StateTypeName is
+// not called on a nil pointer.
+func entityTypeOf[T any]() string {
+	t := reflect.TypeOf((*T)(nil)).Elem()
+	if t.Kind() == reflect.Pointer {
+		return EntityType(reflect.New(t.Elem()).Interface())
+	}
+	var zero T
+	return EntityType(zero)
+}
+
 // CompositeKey returns a composite key from type and key components.
 // The State Protocol uses type + key as a composite identifier.
 func CompositeKey(entityType, key string) string {
